@@ -246,8 +246,13 @@ let handle (fields : string list) : string * string =
          | _ -> denial_ok rest)
       | _ :: rest -> denial_ok rest
       | [] -> None in
+    (* the (type, status) sequence of the responses is what the specification's run of the same packets gives *)
+    let statuses evs = List.filter_map (function Resp (ty, st, _) -> Some (int_of_n ty, int_of_n st) | _ -> None) evs in
+    let status_ok = (statuses ievs = statuses (Model.run cfg items)) in
     let verdict = match bad with
-      | [] -> (match denial_ok ievs with None -> "ok" | Some w -> "fail:" ^ w)
+      | [] -> (match denial_ok ievs with
+          | None -> if status_ok then "ok" else "fail:response-status-differs-from-specification"
+          | Some w -> "fail:" ^ w)
       | Resp (ty, _, _) :: _ -> Printf.sprintf "fail:malformed-or-untruthful-response-type-%d" (int_of_n ty)
       | _ -> "fail:response" in
     (m, verdict)
@@ -625,6 +630,13 @@ let handle (fields : string list) : string * string =
     (* C07 at volume: C07_noninterference says a tunnel's outputs are those of its own operations; for relayed
        data that is: every byte a client receives was sent by its own host, in order *)
     ("own-bytes-only", if impl = "own-bytes-only" then "ok" else "fail:" ^ impl)
+  | "inagain" :: _ending :: impl :: [] ->
+    (* Model/System.v: an inbound request is attached only while the tunnel has no inbound channel yet *)
+    let c = parse_cfg "10101" "0000000" "0" in
+    let one = n_of_int 1 in
+    let tr = Model.grun c [] [GOpenOut one; GOpenIn one; GOpenIn one] in
+    let m = (match List.rev tr with (_, GRefused) :: _ -> "second-in-refused" | _ -> "second-in-accepted") in
+    (m, if m = impl then "ok" else "fail:" ^ impl)
   | "pairing" :: same :: impl :: [] ->
     let c = parse_cfg "10101" "0000000" "0" in
     let one = n_of_int 1 and two = n_of_int 2 in
